@@ -162,32 +162,70 @@ let grammar_cmd st o dl cm ast path =
   (st', Printf.sprintf "wf=%d agree=%d lines=%d bytes=%s" (if wf_file dl cm ls then 1 else 0)
           (if agrees dl cm ls then 1 else 0) (List.length ls) (enc bytes))
 
+let dec_olist (s : string) : n list list =
+  if s = "-" || s = "" then [] else List.map dec (String.split_on_char ',' s)
+
+let show_checks l = String.concat "," (List.map (fun (p, ok) -> enc p ^ ":" ^ (if ok then "1" else "0")) l)
+
+let show_wout (o : out) : string =
+  match o with
+  | ORead (e, valid, checks, opens) ->
+      Printf.sprintf "%s obj=%d checks=%s opens=%s" (rc e) (if valid then 1 else 0) (show_checks checks) (enc_list opens)
+  | OHist (e, files, checks, opens) ->
+      Printf.sprintf "%s n=%d checks=%s opens=%s%s" (rc e) (List.length files) (show_checks checks) (enc_list opens)
+        (String.concat "" (List.map (fun kf -> " || " ^ show_out (ODump kf)) files))
+  | OLoc (f, l) -> Printf.sprintf "loc file=%s line=%d" (enc f) (int_of_n l)
+  | _ -> show_out o
+
+let parse_wcmd (toks : string list) : wcmd =
+  let i s = int_of_string s in
+  let o s = nat_of_int (i s) in
+  let num s = n_of_int (i s) in
+  match toks with
+  | ["fsfile"; p; content; u; g] -> WFs (dec p, NFile (dec content, num u, num g))
+  | ["fslink"; p; target; u; g] -> WFs (dec p, NLink (dec target, num u, num g))
+  | ["fsdir"; p; u; g] -> WFs (dec p, NDir (num u, num g))
+  | ["sec"; ow; gr; nl] ->
+      WSec { sec_owner = (if ow = "-" then None else Some (num ow));
+             sec_group = (if gr = "-" then None else Some (num gr)); sec_nolinks = (nl = "1") }
+  | ["confdirs"; l] -> WConfDirs (dec_olist l)
+  | ["cb"; "none"] -> WCallback CbNone
+  | ["cb"; "reject"] -> WCallback (CbReject [])
+  | ["cb"; "reject"; l] -> WCallback (CbReject (dec_olist l))
+  | ["newopts"; a; opts] -> WNewOpts (o a, dec_opt opts)
+  | ["readfile"; a; p; dl; cm] -> WReadFile (o a, dec p, dec dl, dec cm)
+  | ["readdirs"; a; d1; d2; nm; sf; dl; cm] -> WReadDirs (o a, dec_opt d1, dec_opt d2, dec_opt nm, dec_opt sf, dec dl, dec cm)
+  | ["readconfig"; a; pr; us; nm; sf; dl; cm] -> WReadConfig (o a, dec_opt pr, dec_opt us, dec_opt nm, dec_opt sf, dec dl, dec cm)
+  | ["history"; d1; d2; nm; sf; dl; cm] -> WHistory (dec_opt d1, dec_opt d2, dec_opt nm, dec_opt sf, dec dl, dec cm)
+  | ["errloc"] -> WErrLoc
+  | _ -> WBase (parse_cmd toks)
+
 let () =
   let ic = if Array.length Sys.argv > 1 then open_in Sys.argv.(1) else stdin in
-  let st = ref [] in
+  let w = ref world0 in
   (try
     while true do
       let line = input_line ic in
       if line = "" || line.[0] = '#' then ()
-      else if line = "reset" then (st := []; print_endline "reset")
+      else if line = "reset" then (w := world0; print_endline "reset")
       else begin
         let toks = String.split_on_char ' ' line in
         match toks with
         | ["wspec"; o] ->
-            let kf = List.assoc_opt (nat_of_int (int_of_string o)) !st in
+            let kf = List.assoc_opt (nat_of_int (int_of_string o)) (!w).w_store in
             (match kf with
              | None -> print_endline "noobj"
              | Some kf ->
                  let b x = if x then 1 else 0 in
                  Printf.printf "writable=%d render=%d wf=%d roundtrip=%d\n" (b (writable kf)) (b (chk_render kf)) (b (chk_wf kf)) (b (chk_roundtrip kf)))
         | ["grammar"; o; path; dl; cm; ast] ->
-            let (s', r) = grammar_cmd !st (nat_of_int (int_of_string o)) dl cm ast path in
-            st := s'; print_endline r
+            let (s', r) = grammar_cmd (!w).w_store (nat_of_int (int_of_string o)) dl cm ast path in
+            w := { !w with w_store = s' }; print_endline r
         | _ ->
-        let c = parse_cmd toks in
-        let (s', r) = step !st c in
-        st := s';
-        print_endline (show_out r)
+        let c = parse_wcmd toks in
+        let (w', r) = wstep !w c in
+        w := w';
+        print_endline (show_wout r)
       end
     done
   with End_of_file -> ());
